@@ -207,16 +207,282 @@ def run(rep: Report, repo: Repo):
                                 f'({"a node whose pins are all unconnected is never yielded" if is_zero else "a node with an unconnected pin never becomes ready and is never yielded"})', node=cmp_)
     rep.floor('pin-list iterations in traversals', nloops, 5)
 
-    kahn(rep, mod, fns['Circuit.topological_order'], 'outs', 'ins', 'reader')
-    kahn(rep, mod, fns['Circuit.reversed_topological_order'], 'ins', 'outs', 'driver')
-    mirror(rep, mod, fns)
+    evaluated = False
+    try:
+        evaluated = traversals_evaluated(rep, mod, fns, full=not getattr(rep, '_c17_order_only', False))
+    except ModelError as e:
+        rep.note(f'C17.traverse: the traversal generators are outside the evaluated subset ({e}); the structural rules decide')
+    if not evaluated:
+        kahn(rep, mod, fns['Circuit.topological_order'], 'outs', 'ins', 'reader')
+        kahn(rep, mod, fns['Circuit.reversed_topological_order'], 'ins', 'outs', 'driver')
+        mirror(rep, mod, fns)
+        levels(rep, mod, fns['Circuit.topological_order_with_level'])
     predicates(rep, mod, fns)
-    levels(rep, mod, fns['Circuit.topological_order_with_level'])
     if getattr(rep, '_c17_order_only', False):
         return      # included by a simulation check: only the rules about the order the op list is built from
-    lines_and_fanin(rep, mod, fns)
+    if not evaluated:
+        lines_and_fanin(rep, mod, fns)
     locs(rep, mod)
 
+
+
+# ---------------------------------------------------------------------------------------------------------------------
+# Engine M: the five traversal generators evaluated on every small circuit
+
+def _small_circuits(full):
+    """Stand-in circuits: nodes (index, kind, ins, outs; usable as indices like kyupy's Node) and lines (driver, reader). Every directed graph on up
+    to 3 nodes in which each cycle passes a state element, over two kinds (gate / flip-flop), each with four pin layouts (no gaps; an unconnected
+    pin in front of the inputs; in front of the outputs; both) - plus, for two nodes, six kind spellings (dff / latch in both cases and as
+    substrings) - plus (full) all forward-edged graphs on 4 nodes under three labelings with at most one state element."""
+    import itertools
+    from kvstatic.minieval import NS, NodeNS
+
+    def build(n, edges, kinds, gap):
+        nodes = [NodeNS(index=i, kind=kinds[i], name=f'n{i}', tag=f'n{i}', ins=[], outs=[]) for i in range(n)]
+        if gap & 1:
+            for x in nodes:
+                x.ins.append(None)
+        if gap & 2:
+            for x in nodes:
+                x.outs.append(None)
+        lines = []
+        for (a, b) in edges:
+            ln = NodeNS(index=len(lines), driver=nodes[a], reader=nodes[b], driver_pin=len(nodes[a].outs), reader_pin=len(nodes[b].ins), tag=f'l{len(lines)}:{a}->{b}')
+            nodes[a].outs.append(ln)
+            nodes[b].ins.append(ln)
+            lines.append(ln)
+        if gap & 4:
+            for x in nodes:
+                x.ins.append(None)
+                x.outs.append(None)
+        return nodes, lines
+
+    def state(k):
+        return 'dff' in k.lower() or 'latch' in k.lower()
+
+    def acyclic_after_cut(n, edges, kinds):
+        # every cycle must contain a state element: remove the edges into state elements and test for a cycle
+        adj = {i: [b for a, b in edges if a == i and not state(kinds[b])] for i in range(n)}
+        color = {}
+
+        def dfs(u):
+            color[u] = 1
+            for v in adj[u]:
+                if color.get(v) == 1 or (v not in color and dfs(v)):
+                    return True
+            color[u] = 2
+            return False
+        return not any(dfs(u) for u in range(n) if u not in color)
+
+    for n in (1, 2, 3):
+        pairs = [(a, b) for a in range(n) for b in range(n) if a != b]
+        alphabet = ['AND2', 'DFFX1'] if n != 2 else ['AND2', 'DFFX1', 'sdffar', 'LATCH', 'dlatch', 'BUF']
+        for r in range(len(pairs) + 1):
+            for edges in itertools.combinations(pairs, r):
+                for kinds in itertools.product(alphabet, repeat=n):
+                    if not acyclic_after_cut(n, edges, kinds):
+                        continue
+                    for gap in ((0, 1, 2, 3, 4) if n < 3 else (0, 1, 2, 4)):
+                        yield (n, edges, kinds, gap) + build(n, edges, kinds, gap)
+    # parallel lines between the same pair of nodes (both pins of a gate driven by the same node)
+    for kinds in (('AND2', 'AND2', 'AND2'), ('DFFX1', 'AND2', 'AND2')):
+        for edges in (((0, 1), (0, 1)), ((0, 1), (0, 1), (1, 2)), ((0, 2), (0, 1), (1, 2), (1, 2))):
+            yield (3, edges, kinds, 0) + build(3, edges, kinds, 0)
+    if full:
+        fw = [(a, b) for a in range(4) for b in range(a + 1, 4)]
+        for perm in ((0, 1, 2, 3), (3, 2, 1, 0), (2, 0, 3, 1)):
+            for r in range(len(fw) + 1):
+                for es in itertools.combinations(fw, r):
+                    edges = tuple((perm[a], perm[b]) for a, b in es)
+                    for st in (None, 0, 1, 2, 3):
+                        kinds = tuple('DFFX1' if i == st else 'AND2' for i in range(4))
+                        for gap in (0, 3):
+                            yield (4, edges, kinds, gap) + build(4, edges, kinds, gap)
+
+
+def traversals_evaluated(rep, mod, fns, full=True):
+    """C17.traverse - the generators' own statements evaluated (Engine M) on every small circuit and compared with the stated contract.
+    Returns False when some construct is outside the evaluator's subset or the functions contain integer constants other than 0 and 1
+    (a size threshold would make a small-circuit evaluation inadequate): the structural rules then decide."""
+    from kvstatic import minieval
+    from kvstatic.minieval import NS, stub
+    names = ['Circuit.topological_order', 'Circuit.reversed_topological_order', 'Circuit.topological_order_with_level', 'Circuit.topological_line_order', 'Circuit.fanin']
+    if getattr(rep, '_c17_order_only', False):
+        names = names[:3]
+    for q in names:
+        for c in find_all(fns[q], ast.Constant):
+            if type(c.value) is int and c.value not in (0, 1):
+                return False
+            if type(c.value) is float:
+                return False
+    rep.rule('C17.traverse', 'the traversal generators evaluated on every small circuit (all digraphs on <= 3 nodes cut at state elements, forward-edged graphs on 4 nodes; '
+                             'unconnected pins, parallel lines, six kind spellings): every node exactly once, drivers of a combinational node before it, sources and state '
+                             'elements first; levels = longest combinational distance; reverse order likewise with ins/outs exchanged; line order covers each connected line '
+                             'once; fan-in = exactly the transitive fan-in in combinational circuits, and between "has a combinational path" and "has a path" otherwise')
+
+    def state(k):
+        return 'dff' in k.lower() or 'latch' in k.lower()
+
+    def call(q, me, *args):
+        try:
+            return minieval.call_function(fns[q], [me] + list(args)), None
+        except ModelError:
+            raise
+        except (IndexError, KeyError, TypeError, AttributeError, ValueError, RuntimeError, AssertionError) as e:
+            return None, f'{type(e).__name__}: {e}'
+
+    def describe(n, edges, kinds, gap):
+        return f'{n} nodes of kinds {list(kinds)}, lines {["%d->%d" % e for e in edges]}' + \
+            ({0: '', 1: ', an unconnected pin in front of every input list', 2: ', an unconnected pin in front of every output list',
+              3: ', an unconnected pin in front of every pin list', 4: ', an unconnected pin behind every pin list'}[gap])
+
+    bad = {}
+    ncirc = 0
+    nev = 0
+
+    def fail(q, what, desc):
+        bad.setdefault(q, (what, desc))
+
+    for (n, edges, kinds, gap, nodes, lines) in _small_circuits(full):
+        ncirc += 1
+        desc = None
+        cache = {}
+
+        def mk(q, me):
+            def f(*a):
+                if q not in cache:
+                    cache[q] = call(q, me)
+                r, err = cache[q]
+                if err:
+                    raise RuntimeError(err)
+                return list(r)
+            return stub(f)
+        me = NS(nodes=nodes, lines=lines)
+        me.topological_order = mk('Circuit.topological_order', me)
+        me.reversed_topological_order = mk('Circuit.reversed_topological_order', me)
+        is_state = [state(k) for k in kinds]
+        con_in = [[l for l in x.ins if l is not None] for x in nodes]
+        con_out = [[l for l in x.outs if l is not None] for x in nodes]
+
+        def check_order(q, res, err, src_side, dst_side, nxt):
+            """res: list of nodes. src_side(i): lines entering i in traversal direction."""
+            if err:
+                return fail(q, f'raises {err}', describe(n, edges, kinds, gap))
+            idx = [getattr(x, 'index', None) for x in res]
+            if sorted(i for i in idx if i is not None) != list(range(n)) or len(idx) != n:
+                return fail(q, f'yields nodes {idx} instead of every node exactly once', describe(n, edges, kinds, gap))
+            pos = {i: k for k, i in enumerate(idx)}
+            seeds = [i for i in range(n) if is_state[i] or not src_side[i]]
+            for i in range(n):
+                if i not in seeds:
+                    for l in src_side[i]:
+                        d = nxt(l).index
+                        if pos[d] > pos[i]:
+                            return fail(q, f'yields node {i} before node {d} although {d} must come first (order {idx})', describe(n, edges, kinds, gap))
+                    if any(pos[s] > pos[i] for s in seeds):
+                        return fail(q, f'yields node {i} before a source / state element (order {idx})', describe(n, edges, kinds, gap))
+
+        nev += 1
+        r, err = call('Circuit.topological_order', me)
+        cache['Circuit.topological_order'] = (r, err)
+        check_order('Circuit.topological_order', r, err, con_in, con_out, lambda l: l.driver)
+        nev += 1
+        r2, err2 = call('Circuit.reversed_topological_order', me)
+        cache['Circuit.reversed_topological_order'] = (r2, err2)
+        check_order('Circuit.reversed_topological_order', r2, err2, con_out, con_in, lambda l: l.reader)
+        # levels
+        nev += 1
+        q = 'Circuit.topological_order_with_level'
+        r3, err3 = call(q, me)
+        if err3:
+            if not err:
+                fail(q, f'raises {err3}', describe(n, edges, kinds, gap))
+        elif not err:
+            want = {}
+
+            def lv(i, depth=0):
+                if i not in want:
+                    if is_state[i] or not con_in[i]:
+                        want[i] = 0
+                    else:
+                        want[i] = 1 + max(lv(l.driver.index) for l in con_in[i])
+                return want[i]
+            try:
+                got = [(x.index, int(l)) for x, l in r3]
+            except (TypeError, ValueError, AttributeError):
+                got = None
+            if got is None or sorted(i for i, _ in got) != list(range(n)):
+                fail(q, f'does not yield one (node, level) pair per node: {got if got is not None else "malformed items"}', describe(n, edges, kinds, gap))
+            else:
+                wrong = [(i, l, lv(i)) for i, l in got if l != lv(i)]
+                if wrong:
+                    i, l, w = wrong[0]
+                    fail(q, f'reports level {l} for node {i}; its longest combinational distance from a source or state element is {w}', describe(n, edges, kinds, gap))
+                else:
+                    check_order(q, [x for x, _ in r3], None, con_in, con_out, lambda l: l.driver)
+        if len(names) == 3:
+            continue
+        nev += 1
+        q = 'Circuit.topological_line_order'
+        r4, err4 = call(q, me)
+        if err4:
+            if not err:
+                fail(q, f'raises {err4}', describe(n, edges, kinds, gap))
+        elif not err:
+            got = sorted(getattr(l, 'index', -1) for l in r4)
+            if got != list(range(len(lines))) or any(not hasattr(l, 'driver') for l in r4):
+                fail(q, f'yields lines {got} instead of each of the {len(lines)} connected lines exactly once', describe(n, edges, kinds, gap))
+            else:
+                lp = {l.index: k for k, l in enumerate(r4)}
+                for l in lines:
+                    if not is_state[l.driver.index]:
+                        for m in con_in[l.driver.index]:
+                            if lp[m.index] > lp[l.index]:
+                                fail(q, f'yields line {l.tag} before line {m.tag} that feeds its (combinational) driver', describe(n, edges, kinds, gap))
+        # fan-in
+        q = 'Circuit.fanin'
+        import itertools
+        subsets = [c for r in range(0, n + 1) for c in itertools.combinations(range(n), r)] if n <= 3 else [(i,) for i in range(n)] + [(0, n - 1)]
+        for org in subsets:
+            nev += 1
+            r5, err5 = call(q, me, [nodes[i] for i in org])
+            if err5:
+                if not err2:
+                    fail(q, f'raises {err5} for origins {list(org)}', describe(n, edges, kinds, gap))
+                continue
+            if err2:
+                continue
+            idx = [getattr(x, 'index', None) for x in r5]
+            if len(set(idx)) != len(idx) or None in idx:
+                fail(q, f'yields {idx} for origins {list(org)} (a node more than once or something that is no node)', describe(n, edges, kinds, gap))
+                continue
+            # may: any path to an origin; must: origins, and combinational nodes with a path through combinational nodes only
+            may = set(org)
+            must = set(org)
+            chg = True
+            while chg:
+                chg = False
+                for l in lines:
+                    a, b = l.driver.index, l.reader.index
+                    if b in may and a not in may:
+                        may.add(a)
+                        chg = True
+                    if b in must and a not in must and not is_state[a] and (b in org or not is_state[b]):
+                        must.add(a)
+                        chg = True
+            got = set(idx)
+            if not must <= got:
+                fail(q, f'for origins {list(org)} it yields nodes {sorted(got)} and misses {sorted(must - got)}, which reach an origin over combinational nodes', describe(n, edges, kinds, gap))
+            elif not got <= may:
+                fail(q, f'for origins {list(org)} it yields nodes {sorted(got - may)}, which have no path to any origin', describe(n, edges, kinds, gap))
+    for q in names:
+        ok = q not in bad
+        rep.ob('C17.traverse', f'{q}: contract on {ncirc} small circuits', ok, evals=nev if q == names[0] else 0)
+        if not ok:
+            what, desc = bad[q]
+            rep.violate('C17.traverse', mod, fns[q], q.split('.')[-1], f'{q} {what} - on the circuit with {desc}', node=fns[q])
+    rep.floor('small circuits the traversals were evaluated on', ncirc, 1500 if full else 1000)
+    return True
 
 def kahn(rep, mod, f, out_side, in_side, next_attr):
     q = f._qualname
